@@ -40,6 +40,7 @@ type PendOpt struct {
 	ForeignInputs  bool // transactions that concern a wallet depend on recent non-wallet outputs, which are later double spent
 	CoinbaseGames  bool // coinbase transactions pay staking / binding scripts
 	AlreadyMined   bool // a transaction first seen in a block is delivered as unconfirmed afterwards
+	UnseenParents  bool // an unconfirmed transaction spends an output of a block the wallet has not processed yet (shape of finding stale-pending:unseen-parent)
 	Games          int  // percentage of wallet payees that are staking/binding scripts
 }
 
@@ -211,8 +212,14 @@ func (h *H) sources(live []*wire.MsgTx, includeSpent bool) []src {
 	next := h.N.Height() + 1
 	spent := spentByPool(live)
 	var l []src
+	wbest := h.W.H.VerifBest().Height
 	for _, c := range h.matureSorted(next) {
 		if _, s := spent[c.Op]; s && !includeSpent {
+			continue
+		}
+		if c.Height > wbest && !h.px().opt.UnseenParents {
+			// created in a block the wallet has not processed: if that block is reorganised away first,
+			// the wallet never learns the parent transaction
 			continue
 		}
 		_, own := owned[c.Sh]
@@ -1039,6 +1046,32 @@ func (h *H) Scenario(name string) (bool, error) {
 		t2 := h.buildFrom([]src{fr[0]}, 0)
 		h.defineTx(t2)
 		if err := h.mineNow([]*wire.MsgTx{t2}); err != nil {
+			return false, err
+		}
+	case "unseen":
+		// the wallet is one block behind; an unconfirmed child of a transaction of that block arrives; the
+		// block is reorganised away before the wallet processes it and the parent is double-spent: the
+		// wallet never learns the parent, the child stays pending
+		own := h.freeCoins(true)
+		if len(own) < 1 {
+			return false, nil
+		}
+		parent := h.buildFrom([]src{own[0]}, 100)
+		if h.ChildOf(parent) == nil {
+			return false, nil
+		}
+		b := h.BuildBlockP(0, []*wire.MsgTx{parent})
+		if err := h.Attach(b); err != nil {
+			return false, err
+		}
+		child := h.ChildOf(parent)
+		h.Receive(child)
+		if _, err := h.Detach(); err != nil {
+			return false, err
+		}
+		x := h.buildFrom([]src{own[0]}, 0)
+		h.defineTx(x)
+		if err := h.mineNow([]*wire.MsgTx{x}); err != nil {
 			return false, err
 		}
 	default:
